@@ -176,7 +176,7 @@ def scenarios(draw, *, max_machines=6, max_obs=4, max_nodes=6,
               modes=('roomy', 'band'), delays=False, units=False,
               adversary=False, delay_model=False, min_obs=1,
               start_gaps=(0, 0, 0, 1, 1, 2, 3, 5, 10), max_duration=6,
-              few_machines=False, piled_plans=False, overlap=False, limit_binds=False, unsorted=False, long_durations=False, b2b=False, twins=False, abs_est=False, zero_rate=False, frac_duration=False, frac_start=False, odd_names=False):
+              few_machines=False, piled_plans=False, overlap=False, limit_binds=False, unsorted=False, long_durations=False, b2b=False, twins=False, abs_est=False, zero_rate=False, frac_duration=False, frac_start=False, odd_names=False, frac_cap=False):
     nm = draw(st.integers(2 if overlap else 1, 3 if few_machines else max_machines))
     hetero = draw(st.booleans())
     speeds = (1, 2, 5, 10, 20)
@@ -300,6 +300,11 @@ def scenarios(draw, *, max_machines=6, max_obs=4, max_nodes=6,
     hot["rate"] = max_rate * draw(st.sampled_from([1, 1, 2, 5]))
     cold = {"capacity": max(1, max(vols)) * draw(st.sampled_from([1, 2, 10])),
             "rate": draw(st.sampled_from([1, 2, 3, 10, 50]))}
+    if frac_cap and mode == 'roomy' and hot["capacity"] < 2 ** 40:
+        # buffer capacities that are not whole numbers (x.5 and x.25 are exact in binary, so every free-space value the
+        # simulation computes from them is exact too and can be compared with == )
+        hot["capacity"] = hot["capacity"] + draw(st.sampled_from([0, 0.5, 0.25]))
+        cold["capacity"] = cold["capacity"] + draw(st.sampled_from([0, 0.5, 0.75]))
     # --- algorithm pairing
     kind = draw(st.sampled_from(list(algs)))
     if adversary:
